@@ -6,10 +6,14 @@
   files; every count is the sum of the members' contributions; the name lists are the
   sorted supports of the counts; the transaction index holds, per key, the members'
   entries (as a multiset); a payee has a template iff some member has one, and it is one
-  of the members' templates (which one is left open: a rebuild's own choice depends on
-  Go's map iteration order, property C15); declared accounts and commodities are the
-  union of the members' directives; commodity formats are those of the last directive in
-  include order (the order in which `include.Loader` meets the files).
+  of the members' templates (`ptOk`; WHICH member's is a choice of the code: the pinned
+  code keeps the template of the file indexed last, the repaired code that of the smallest
+  path — so, beyond `ptOk`, the driver compares the templates of the implementation's
+  incremental view entry by entry with those of the implementation's own rebuild, and
+  HL.Props.C12.C12_templates_eq_rebuild proves that equality for the repaired code);
+  declared accounts and commodities are the union of the members' directives; commodity
+  formats are those of the last directive in include order (the order in which
+  `include.Loader` meets the files).
 
   `Reach` is the declarative reachability relation; `reach` computes it with the generic
   graph search `bfsF` (proved equivalent in HL/Lemmas/Reach.lean: `mem_reach_iff`).
